@@ -241,6 +241,11 @@ cdef class CellIndexingNNPS(NNPS):
 
         cdef int i, n
         cdef int c_x, c_y, c_z
+
+        if indices.length == 0:
+            # An empty array has no cells.
+            return
+
         for i in range(indices.length):
             n = indices.data[i]
             find_cell_id_raw(
@@ -341,8 +346,10 @@ cdef class CellIndexingNNPS(NNPS):
         cdef double* xmax = self.xmax.data
         cdef double* xmin = self.xmin.data
 
-        self.J = <u_int> (1 + log2(ceil((xmax[0] - xmin[0])/self.cell_size)))
-        self.K = <u_int> (1 + log2(ceil((xmax[1] - xmin[1])/self.cell_size)))
+        # At least one cell along each direction, the particles may all have
+        # the same x or y.
+        self.J = <u_int> (1 + log2(fmax(1.0, ceil((xmax[0] - xmin[0])/self.cell_size))))
+        self.K = <u_int> (1 + log2(fmax(1.0, ceil((xmax[1] - xmin[1])/self.cell_size))))
 
         for i in range(self.narrays):
             free(self.keys[i])
@@ -362,7 +369,7 @@ cdef class CellIndexingNNPS(NNPS):
         cdef NNPSParticleArrayWrapper pa_wrapper = self.pa_wrappers[pa_index]
         cdef int num_particles = pa_wrapper.get_number_of_particles()
 
-        self.I[pa_index] = <u_int> (1 + log2(pa_wrapper.get_number_of_particles()))
+        self.I[pa_index] = <u_int> (1 + log2(fmax(1.0, num_particles)))
 
         cdef u_int* current_keys = self.keys[pa_index]
         cdef key_to_idx_t* current_indices = self.key_indices[pa_index]
